@@ -523,7 +523,7 @@ func TestVerif_C13(t *testing.T) {
 	r.Exhaustive("every domain length 1..300 (with/without trailing dot), every wildcard-base length 1..300, every label length 1..80, every scheme length 1..80, ports 0..200 and 65400..70000 (and every 641st between), all maxima at once")
 
 	nb := pick(r, 64, 1024)
-	per := pick(r, 400, 2500)
+	per := pick(r, 1200, 4000)
 	r.Parallel(nb, func(l *Local) {
 		rng := l.Rng
 		for i := 0; i < per; i++ {
